@@ -127,7 +127,7 @@ func (s *ProtoScenario) Check(k *sim.Kernel) []sim.Violation {
 		perClient[owner] = append(perClient[owner], hev{e.Seq, e.Kind, e.Data})
 	}
 	for ci, cs := range s.Clients {
-		faulted := cs.End != "close" || cs.NoRead
+		faulted := cs.End != "close" || cs.NoRead || cs.HoldUs > 0
 		out = append(out, checkClientConn(sf("client%d", ci), s.Service, s.Scripts, cs, conns[ci], perClient[ci], faulted, s.Faulted, false)...)
 	}
 	// ---- independence: while a handler of one connection is blocked (script
